@@ -894,6 +894,11 @@ TRUSTED_COMPILER = [
     "the compiler model coq/Compiler/Compile.v is hand-written; it is compared with hy_compile at AST level "
     "(canonical dump, temporaries by exact name) on every generated program of every run",
     "translator/compiler_tables.py (and/or defaults, get_anon_var format) regenerated on every run",
+    "programs with the two-argument call (log2 k a b) are outside the Coq model (behaviour only, no AST comparison): the "
+    "reference evaluates a, then b into fresh model variables, then the effect point k, and the call returns a if k is odd "
+    "else b (props/compiler_common.py to_coq); they are generated so that the sibling order docs/semantics.rst leaves "
+    "unspecified cannot show (b needs no statements, or a's remainder is a constant or a compiler temporary)",
+    "runs in which the model exhausts its fuel (%d loop re-entries/exits along one chain) are skipped, as in the theorem" % FUEL,
     "exception classes are referred to by name and handler types are class names (no statements in handler types); "
     "user variables hold None/bool/int/exception classes; unbound-name errors are not modelled (stores are total)",
 ]
